@@ -136,6 +136,10 @@ pub fn qsieve(
         [&roots_bck1[..], &roots_bck2[..]],
         None,
     );
+    #[cfg(yamaquasi_verif)]
+    verif_root_log_push(false, s_fwd.offset, &roots_fwd1, &roots_fwd2);
+    #[cfg(yamaquasi_verif)]
+    verif_root_log_push(true, s_bck.offset, &roots_bck1, &roots_bck2);
     for large_blk_idx in 1.. {
         // The unit of work is an entire large block (blocks * BLOCK_SIZE)
         // The size of a large block should be similar to the SIQS interval size.
@@ -143,6 +147,8 @@ pub fn qsieve(
         let mut do_sieve_fwd = || {
             if s_fwd.blk_no == qs.nblocks() {
                 next_lgblock(&mut roots_fwd1, &mut roots_fwd2);
+                #[cfg(yamaquasi_verif)]
+                verif_root_log_push(false, s_fwd.offset, &roots_fwd1, &roots_fwd2);
                 s_fwd.rehash([&roots_fwd1[..], &roots_fwd2[..]]);
             }
             for _ in 0..qs.nblocks() {
@@ -154,6 +160,8 @@ pub fn qsieve(
         let mut do_sieve_bck = || {
             if s_bck.blk_no == qs.nblocks() {
                 next_lgblock(&mut roots_bck1, &mut roots_bck2);
+                #[cfg(yamaquasi_verif)]
+                verif_root_log_push(true, s_bck.offset, &roots_bck1, &roots_bck2);
                 s_bck.rehash([&roots_bck1[..], &roots_bck2[..]]);
             }
             for _ in 0..qs.nblocks() {
@@ -460,4 +468,66 @@ fn sieve_block(s: &SieveQS, st: &mut Sieve, roots: [&[u32]; 2], backward: bool) 
         crate::verif_sched::yield_point(12);
         s.rels.write().unwrap().add(rel, pq);
     }
+}
+
+// ---------------------------------------------------------------------------
+// Verification hooks (add-only, compiled only with `--cfg yamaquasi_verif`).
+
+#[cfg(yamaquasi_verif)]
+impl<'a> SieveQS<'a> {
+    pub fn verif_roots_fwd(&self, pidx: usize) -> (u32, u32) {
+        self.prepare_prime_fwd(pidx)
+    }
+    pub fn verif_roots_bck(&self, pidx: usize) -> (u32, u32) {
+        self.prepare_prime_bck(pidx)
+    }
+    pub fn verif_nblocks(&self) -> usize {
+        self.nblocks()
+    }
+    /// (nsqrt, nsqrt^2 - n, only_odds)
+    pub fn verif_poly_consts(&self) -> (I256, I256, bool) {
+        (self.nsqrt, self.nsqrt2_minus_n, self.only_odds)
+    }
+}
+
+/// One observed root table of `qsieve()`: (backward, sieve offset, roots1, roots2), recorded when
+/// the tables are handed to `Sieve::new` and after every large-block shift.
+#[cfg(yamaquasi_verif)]
+pub type VerifRootLog = Vec<(bool, i64, Vec<u32>, Vec<u32>)>;
+
+#[cfg(yamaquasi_verif)]
+thread_local! {
+    static VERIF_ROOT_LOG: std::cell::RefCell<Option<(usize, VerifRootLog)>> = std::cell::RefCell::new(None);
+}
+
+/// Start recording on this thread (at most `cap` tables are kept).
+#[cfg(yamaquasi_verif)]
+pub fn verif_root_log_start(cap: usize) {
+    VERIF_ROOT_LOG.with(|l| *l.borrow_mut() = Some((cap, vec![])));
+}
+
+/// Stop recording and return what was observed.
+#[cfg(yamaquasi_verif)]
+pub fn verif_root_log_take() -> VerifRootLog {
+    VERIF_ROOT_LOG.with(|l| l.borrow_mut().take().map(|x| x.1).unwrap_or_default())
+}
+
+/// True once `cap` tables have been recorded (usable as `Preferences::should_abort`).
+#[cfg(yamaquasi_verif)]
+pub fn verif_root_log_full() -> bool {
+    VERIF_ROOT_LOG.with(|l| match l.borrow().as_ref() {
+        Some((cap, v)) => v.len() >= *cap,
+        None => true,
+    })
+}
+
+#[cfg(yamaquasi_verif)]
+fn verif_root_log_push(bck: bool, offset: i64, r1: &[u32], r2: &[u32]) {
+    VERIF_ROOT_LOG.with(|l| {
+        if let Some((cap, v)) = l.borrow_mut().as_mut() {
+            if v.len() < *cap {
+                v.push((bck, offset, r1.to_vec(), r2.to_vec()));
+            }
+        }
+    });
 }
